@@ -17,6 +17,8 @@ import SharkVerif.Model.Contrib3D
 import SharkVerif.Lemmas.DCFront
 import SharkVerif.Lemmas.RatLift
 import SharkVerif.Lemmas.Subset2D
+import SharkVerif.Lemmas.Contrib3DE
+import SharkVerif.Lemmas.HOY
 namespace SharkVerif.C13
 open SharkVerif.Pareto SharkVerif.HV SharkVerif.DC
 
@@ -484,16 +486,128 @@ theorem ssp_select_optimal (S : List Pt) (r : Pt) (k : Nat) (hS : ∀ p ∈ S, p
   ⟨(select_optimal hS hr hle hk hkF).2.1, select_eq_bestSubsetHv hS hr hle hk hkF⟩
 
 open SharkVerif.SSP in
-/-- … and for the operator **as written in the C++** (comparator regenerated from the source) on inputs with pairwise
-distinct first coordinates.  `_partial`: with equal first coordinates the comparator of the C++ (`f2 < rhs.f1`) is
-not a strict weak order — finding C13-SSP-LEXLESS, 17 such points make `std::sort` read out of bounds — so no
-statement about `std::sort` is possible there; the theorem above is what holds after the one-token repair. -/
-theorem ssp_select_optimal_partial (S : List Pt) (r : Pt) (k : Nat) (hS : ∀ p ∈ S, p.length = 2) (hr : r.length = 2)
-    (hle : ∀ p ∈ S, leAll p r = true) (hd : S.Pairwise (fun p q => px p ≠ px q))
-    (hk : 1 ≤ k) (hkF : k ≤ (createFront S r).length) :
-    hvSpec (SharkVerif.SSP.selected S k r) r = bestSubsetHv S k r :=
-  selected_eq_bestSubsetHv_distinct hS hr hle hd hk hkF
+/-- the comparator of the C++ (`Point::operator<`, regenerated from the source on every run into
+`Gen/SspPointLess.lean`) **is** the lexicographic order on `(f1, f2)`.  This holds since /repo d62b7243; should the
+tie-break be edited again this theorem — and with it the two below — fails to compile, i.e. the check breaks. -/
+theorem ssp_comparator_is_lexicographic : ptLt = ptLtFixed := by
+  funext a b
+  unfold ptLt SharkVerif.Gen.sspPointLess ptLtFixed
+  rfl
+
+open SharkVerif.SSP in
+/-- **C13 (two-dimensional subset selection returns a subset of maximal hypervolume)** for the operator **as written
+in the C++**: for every finite 2-D set weakly dominating the reference point — dominated points, duplicates, equal
+first or second coordinates, points on the boundary of the box — and every `1 ≤ k ≤` size of the front, exactly `k`
+flags are set and the selected points have the largest hypervolume among all `k`-element sub-lists.  (Full
+strength: the hypothesis "pairwise distinct first coordinates" of the earlier `_partial` version was forced by the
+comparator defect C13-SSP-LEXLESS, repaired in /repo d62b7243.) -/
+theorem ssp_select_optimal_real (S : List Pt) (r : Pt) (k : Nat) (hS : ∀ p ∈ S, p.length = 2) (hr : r.length = 2)
+    (hle : ∀ p ∈ S, leAll p r = true) (hk : 1 ≤ k) (hkF : k ≤ (createFront S r).length) :
+    (select S k r).count true = k ∧ hvSpec (SharkVerif.SSP.selected S k r) r = bestSubsetHv S k r := by
+  have hsel : select S k r = selectWith ptLtFixed S k r := by
+    unfold select; rw [ssp_comparator_is_lexicographic]
+  have hsd : SharkVerif.SSP.selected S k r = selectedWith ptLtFixed S k r := by
+    unfold SharkVerif.SSP.selected selectedWith; rw [hsel]
+  have hF : createFront S r = createFrontWith ptLtFixed S r := by
+    unfold createFront; rw [ssp_comparator_is_lexicographic]
+  rw [hF] at hkF
+  rw [hsel, hsd]
+  exact ssp_select_optimal S r k hS hr hle hk hkF
+
+/-- history (finding C13-SSP-LEXLESS): the comparator the C++ had before /repo d62b7243, `f2 < rhs.f1` in the
+tie-break, is not irreflexive — it is no strict weak order, `std::sort` with it has undefined behaviour -/
+theorem ssp_old_comparator_not_irreflexive :
+    ∃ a : SharkVerif.SSP.P2, (if a.f1 < a.f1 then true else if a.f1 < a.f1 then false else decide (a.f2 < a.f1)) = true :=
+  ⟨⟨-1, -2, 0⟩, by decide⟩
 
 example : SharkVerif.SSP.IsFront [⟨-5, -1, 0⟩, ⟨-3, -2, 1⟩, ⟨-1, -4, 2⟩] := ⟨by decide, by decide⟩
+
+/-! ## HypervolumeContribution3D (sweep with the x-y front and the box deques)
+
+Model: `Model/Contrib3D.lean`.  Proved (`Lemmas/Contrib3D.lean` … `Contrib3DE.lean`): the index bookkeeping, the
+treatment of points on the boundary of the reference box (/repo 778c5b2c), the reduction of the operator to the sweep
+on shifted, sorted, strictly-inside points, the slicing of a contribution by height, conservation of
+"contribution + volume of the open boxes" by both cuts, the geometry of the boxes created for a new point
+(`newBoxes_mem`), the chain invariant of a box list under both cuts.  Open: the assembly of these into the loop
+invariant of `step3c` (`SweepCorrect`). -/
+
+/-- every point gets exactly one `(contribution, index)` pair (unconditional) -/
+theorem contribution3d_indices (S : List Pt) (r : Pt) :
+    ((contribs3d S r).map (·.2)).Perm (List.range S.length) :=
+  contribs3d_map_snd_perm S r
+
+/-- **C13 (HypervolumeContribution3D)** — `_partial`: the operator-level statement (mutually non-dominated 3-D sets,
+duplicates and boundary points allowed: one pair per point whose key is the hypervolume lost by removing the point)
+is proved **from** the correctness of the inner sweep on sorted, strictly negative, mutually non-dominated fronts
+(`SweepCorrect`, a statement about `sweepContrib` = `allContributions(front)` only); that loop invariant is not proved
+yet.  On every run the sweep is compared with `contribSpec` by the correspondence and the oracle, also on all
+prefixes of the input in sweep order. -/
+theorem contribution3d_eq_spec_partial (hsw : SweepCorrect) (S : List Pt) (r : Pt) (hS : ∀ p ∈ S, p.length = 3)
+    (hr : r.length = 3) (hle : ∀ p ∈ S, leAll p r = true) (hnd : ∀ p ∈ S, ∀ q ∈ S, dominates p q = false) :
+    ((contribs3d S r).map (·.2)).Perm (List.range S.length) ∧ ∀ c ∈ contribs3d S r, c.1 = contribSpec S r c.2 :=
+  contribs3d_eq_spec_of_sweep hsw hS hr hle hnd
+
+/-- a point with a coordinate equal to the reference point has contribution 0 (what /repo 778c5b2c relies on) -/
+theorem contribution_of_boundary_point_is_zero {S : List Pt} {r : Pt} (hS : ∀ p ∈ S, p.length = 3) (hr : r.length = 3)
+    (hle : ∀ p ∈ S, leAll p r = true) {i : Nat} (hi : i < S.length) (hout : inside3 r S[i] = false) :
+    contribSpec S r i = 0 :=
+  contribSpec_boundary hS hr hle hi hout
+
+/-- the precondition "mutually non-dominated" is needed by the 3-D sweep as well -/
+theorem contribution3d_needs_nondominated :
+    ∃ (S : List Pt) (r : Pt), (∀ p ∈ S, p.length = 3) ∧ r.length = 3 ∧ (∀ p ∈ S, leAll p r = true) ∧
+      ¬ ∀ c ∈ contribs3d S r, c.1 = contribSpec S r c.2 :=
+  contribs3d_needs_nondominated
+
+/-! ## HypervolumeCalculatorMDHOY
+
+Model: `Model/HOY.lean`.  Proved (`Lemmas/HOYBasic.lean`, `Lemmas/HOY.lean`): the cover scan, the pile/trellis case
+(`computeTrellis` = Π(up−low) − Π(trellis−low) = the covered part of a level), the split case for a bound inside the
+region, the entry (filter, sort, doubling, `regLow`).  The C++ keeps the `boundaries` arrays when it advances `split`,
+so the median used as bound for an objective can be a value collected for an earlier objective and lie outside the
+region; this is reachable from `operator()` (corpus/C13/subroutines.txt) and harmless there (objectives behind
+`split` are uncut: an out-of-region bound adds an uncovered slab or a uniformly covered slab that the child with
+negative extent subtracts again), but the signed-extent argument is not formalised. -/
+
+open SharkVerif.HOY in
+/-- **C13 (HOY, `stream`)** — `_partial`: on every state satisfying the invariant `Reg` (dimensions, `low ≤ up`, points
+reach into the region, sorted by the last objective, below `cover`) whose run passes the executable checker
+`streamOk` (depth budget not exhausted, every split objective `< m-1`, every bound within `[low, up]` of its
+objective), `stream` returns the number of dominated cells of the region below `cover`. -/
+theorem hoy_stream_eq_spec_partial (sqrtN m fuel : Nat) (low up : Pt) (pts : List Pt) (split : Nat) (cover : Int)
+    (h : Reg m low up pts cover) (hok : streamOk sqrtN fuel low up pts split cover = true) :
+    stream sqrtN fuel low up pts split cover = ((streamSpec low up pts cover : Nat) : Int) :=
+  stream_eq_spec_partial sqrtN m fuel low up pts split cover h hok
+
+open SharkVerif.HOY in
+/-- **C13 (HypervolumeCalculatorMDHOY::operator())** — `_partial`: for every finite set of points of the dimension of
+the reference point (no hypothesis on dominance, duplicates, boundary points) whose run passes `hoyOk` — the Boolean
+replay of the run that checks the three conditions of `streamOk` at every node — the value is the dominated
+hypervolume.  `hoyOk` is false on some admissible inputs (out-of-region bounds, see above): there the result is still
+observed to be correct (correspondence + oracle, incl. `stream` called directly on reachable states) but not proved.
+Missing for the full statement `hvHoy S r = hvSpec S r`: the signed-extent version of the split lemma and a bound on
+the recursion depth. -/
+theorem hvHoy_eq_spec_partial (S : List Pt) (r : Pt) (hS : ∀ p ∈ S, p.length = r.length) (hr : 1 ≤ r.length)
+    (hok : hoyOk S r = true) : hvHoy S r = ((hvSpec S r : Nat) : Int) :=
+  SharkVerif.HOY.hvHoy_eq_spec_partial S r hS hr hok
+
+open SharkVerif.HOY in
+/-- the front end in exactly 4 objectives, under the same run condition (complements `hvDisp_eq_spec_partial`) -/
+theorem hvDisp_four_objectives_partial (S : List Pt) (r : Pt) (hS : ∀ p ∈ S, p.length = r.length) (h4 : r.length = 4)
+    (hok : hoyOk S r = true) : hvDisp S r = ((hvSpec S r : Nat) : Int) := by
+  unfold hvDisp
+  by_cases he : S.isEmpty = true
+  · have : S = [] := List.isEmpty_iff.mp he
+    subst this; simp [hvSpec_nil]
+  · rw [if_neg he]
+    split
+    · next h => omega
+    · next h => omega
+    · exact SharkVerif.HOY.hvHoy_eq_spec_partial S r hS (by omega) hok
+    · next h1 h2 h3 => exact absurd h4 h3
+
+/-- non-vacuity: a 3-objective state with two mutually non-dominated points (a split node and pile nodes below it) -/
+example : SharkVerif.HOY.streamOk 1 20 [0, 0, 0] [4, 4, 4] [[2, 1, 0], [1, 2, 1]] 0 4 = true ∧
+    SharkVerif.HOY.stream 1 20 [0, 0, 0] [4, 4, 4] [[2, 1, 0], [1, 2, 1]] 0 4 = 30 := by decide
 
 end SharkVerif.C13
